@@ -1,5 +1,8 @@
 import AsherahVerif.Proofs.Gcm
 import AsherahVerif.Model.Aes
+import AsherahVerif.Model.Codec
+import AsherahVerif.Generated.Fmt
+import AsherahVerif.Expected.Fmt
 /-
 C18 — stored and wire formats follow the documented, cross-language layout
 (and the byte-level GCM theorems reused by C07 / C01).
@@ -141,5 +144,83 @@ example : gcmOpen toyE 7 (List.replicate 27 0) = none := open_short _ _ _ (by de
 -- flipping one ciphertext bit of a genuine layout is rejected (toy cipher, concrete).
 set_option maxRecDepth 8000 in
 example : gcmOpen toyE 7 ((gcmSeal toyE 7 (List.replicate 12 1) [1, 2, 3]).set 0 0xFF) = none := by decide
+
+/-! ## the tie to the source: regenerated facts = what the model assumes
+
+`Generated/Fmt.lean` is rewritten from `/repo` on every run by go/cmd/extract/fmt.go;
+`Expected/Fmt.lean` is the hand-written counterpart.  Each conjunct is a finite fact (`decide`). -/
+
+/-- sizes: nonce 12, tag 16, AES-256 key 32, static master key 32 — and they are the sizes of the
+model (`Gcm.nonceSize`, `Gcm.tagSize`). -/
+theorem consts_match_documented :
+    Generated.Fmt.gcmNonceSize = 12 ∧ Generated.Fmt.gcmTagSize = 16 ∧
+    Generated.Fmt.AES256KeySize = 32 ∧ Generated.Fmt.staticKMSKeySize = 32 ∧
+    Generated.Fmt.gcmNonceSize = Gcm.nonceSize ∧ Generated.Fmt.gcmTagSize = Gcm.tagSize ∧
+    Generated.Fmt.gcmNonceSize + Generated.Fmt.gcmTagSize = 28 ∧
+    Generated.Fmt.gcmBlockSizeExpr = Expected.Fmt.gcmBlockSizeExpr ∧
+    Generated.Fmt.gcmMaxDataSizeExpr = Expected.Fmt.gcmMaxDataSizeExpr ∧
+    Gcm.maxDataSize = ((1 <<< 32) - 2) * 16 := by decide
+
+/-- the JSON member names and field types of KeyMeta / DataRowRecord / EnvelopeKeyRecord are the
+documented ones (Key/Data, Created, `Key` a []byte i.e. base64, ParentKeyMeta{KeyId,Created},
+`Revoked,omitempty`, `ID` never serialised), in Go's emission order. -/
+theorem tags_match_documented :
+    Generated.Fmt.tagsKeyMeta = Expected.Fmt.tagsKeyMeta ∧
+    Generated.Fmt.tagsDataRowRecord = Expected.Fmt.tagsDataRowRecord ∧
+    Generated.Fmt.tagsEnvelopeKeyRecord = Expected.Fmt.tagsEnvelopeKeyRecord := by decide
+
+/-- the member names the reference codec uses are exactly the regenerated tags. -/
+theorem codec_names_are_the_tags :
+    (Generated.Fmt.tagsKeyMeta.map fun t => t.2.2.toList) = [Codec.nKeyId, Codec.nCreated] ∧
+    (Generated.Fmt.tagsDataRowRecord.map fun t => t.2.2.toList) = [Codec.nKey, Codec.nData] ∧
+    (Generated.Fmt.tagsEnvelopeKeyRecord.map fun t => t.2.2.toList) =
+      [Codec.nRevoked ++ ",omitempty".toList, "-".toList, Codec.nCreated, Codec.nKey,
+       Codec.nParentKeyMeta ++ ",omitempty".toList] := by decide
+
+/-- shape of `cryptoFunc.Encrypt` / `Decrypt` / the cipher factory / the static KMS (which applies the
+same AEAD under the master key): the model's branches and slice positions mirror these. -/
+theorem aead_shape_matches :
+    Generated.Fmt.cryptoEncryptSkeleton = Expected.Fmt.cryptoEncryptSkeleton ∧
+    Generated.Fmt.cryptoEncryptSlices = Expected.Fmt.cryptoEncryptSlices ∧
+    Generated.Fmt.cryptoDecryptSkeleton = Expected.Fmt.cryptoDecryptSkeleton ∧
+    Generated.Fmt.cryptoDecryptSlices = Expected.Fmt.cryptoDecryptSlices ∧
+    Generated.Fmt.aesGCMCipherFactorySkeleton = Expected.Fmt.aesGCMCipherFactorySkeleton ∧
+    Generated.Fmt.staticKMSEncryptKeySkeleton = Expected.Fmt.staticKMSEncryptKeySkeleton ∧
+    Generated.Fmt.staticKMSDecryptKeySkeleton = Expected.Fmt.staticKMSDecryptKeySkeleton ∧
+    Generated.Fmt.decryptRowSkeleton = Expected.Fmt.decryptRowSkeleton := by decide
+
+/-- key-id format strings of partition.go. -/
+theorem keyid_formats_match :
+    Generated.Fmt.keyIdDefaultPartitionSystemKeyID = Expected.Fmt.keyIdDefaultPartitionSystemKeyID ∧
+    Generated.Fmt.keyIdDefaultPartitionIntermediateKeyID = Expected.Fmt.keyIdDefaultPartitionIntermediateKeyID ∧
+    Generated.Fmt.keyIdSuffixedPartitionSystemKeyID = Expected.Fmt.keyIdSuffixedPartitionSystemKeyID ∧
+    Generated.Fmt.keyIdSuffixedPartitionIntermediateKeyID = Expected.Fmt.keyIdSuffixedPartitionIntermediateKeyID := by decide
+
+/-- SQL statements / row codec shape, DynamoDB attribute names, envelope tags and field mappings of
+both plugins, protobuf field table and the to/fromProtobufDRR field mapping. -/
+theorem carriers_match_documented :
+    Generated.Fmt.sqlLoadKeyQuery = Expected.Fmt.sqlLoadKeyQuery ∧
+    Generated.Fmt.sqlStoreKeyQuery = Expected.Fmt.sqlStoreKeyQuery ∧
+    Generated.Fmt.sqlLoadLatestQuery = Expected.Fmt.sqlLoadLatestQuery ∧
+    Generated.Fmt.sqlSQLMetastoreStoreSkeleton = Expected.Fmt.sqlSQLMetastoreStoreSkeleton ∧
+    Generated.Fmt.sqlparseEnvelopeSkeleton = Expected.Fmt.sqlparseEnvelopeSkeleton ∧
+    Generated.Fmt.ddb1AttrNames = Expected.Fmt.ddb1AttrNames ∧
+    Generated.Fmt.ddb2AttrNames = Expected.Fmt.ddb2AttrNames ∧
+    Generated.Fmt.ddb1Envelope = Expected.Fmt.ddb1Envelope ∧
+    Generated.Fmt.ddb2Item = Expected.Fmt.ddb2Item ∧
+    Generated.Fmt.ddb2Envelope = Expected.Fmt.ddb2Envelope ∧
+    Generated.Fmt.ddb2KeyMeta = Expected.Fmt.ddb2KeyMeta ∧
+    Generated.Fmt.ddb1StoreFields = Expected.Fmt.ddb1StoreFields ∧
+    Generated.Fmt.ddb1ParseResultSkeleton = Expected.Fmt.ddb1ParseResultSkeleton ∧
+    Generated.Fmt.ddb2StoreFields = Expected.Fmt.ddb2StoreFields ∧
+    Generated.Fmt.ddb2DecodeItemSkeleton = Expected.Fmt.ddb2DecodeItemSkeleton ∧
+    Generated.Fmt.ddb2DecodeItemFields = Expected.Fmt.ddb2DecodeItemFields ∧
+    Generated.Fmt.toProtobufDRRFields = Expected.Fmt.toProtobufDRRFields ∧
+    Generated.Fmt.fromProtobufDRRFields = Expected.Fmt.fromProtobufDRRFields ∧
+    Generated.Fmt.protoDataRowRecord = Expected.Fmt.protoDataRowRecord ∧
+    Generated.Fmt.protoEnvelopeKeyRecord = Expected.Fmt.protoEnvelopeKeyRecord ∧
+    Generated.Fmt.protoKeyMeta = Expected.Fmt.protoKeyMeta ∧
+    (Generated.Fmt.ddb1AttrNames.map String.toList) = [Codec.nId, Codec.nCreated, Codec.nKeyRecord] ∧
+    (Generated.Fmt.ddb2AttrNames.map String.toList) = [Codec.nId, Codec.nCreated, Codec.nKeyRecord] := by decide
 
 end AsherahVerif.Props.C18
